@@ -1,6 +1,7 @@
 """Engine A run drivers: seeded generation of operation/fault histories for C12 (this file),
 C06 and C08 (c06.py, c08.py) on top of world.World.  Runs on 3.7 .. 3.10.
 """
+import json
 import sys
 
 from . import fp, prng, sched, workload
@@ -231,6 +232,21 @@ def gen_step(w, rng, cfg, tree, tier):
             w.count("fault_malformed_document_loaded")
             w.faults_fired += 1
             return {"op": "from_json_data", "in": [pm], "malformed": True}
+    queue = getattr(w, "_pending_ops", None)
+    while queue:
+        op = queue.pop(0)
+        if op.get("in") == ["last"]:
+            last = max(w.slots) if w.slots else None
+            if last is None or w.slots[last].route[-1:] != ["respell"]:
+                continue
+            op = dict(op, **{"in": [last]})
+        if op.get("op") == "repeat_to_json_data":
+            keys = [k for k in sorted(w.first_result) if k[0] == "to_json_data" and all(i in w.slots and not w.slots[i].tainted for i in k[1])]
+            if not keys:
+                continue
+            return {"op": "to_json_data", "in": list(rng.choice(keys)[1])}
+        if all(i in w.slots for i in op.get("in", [])):
+            return op
     pend = getattr(w, "_pending_edit", None)
     if pend is not None:
         # the freshly edited data is encoded twice in a row (P2 needs the same call on the same argument)
@@ -262,6 +278,11 @@ def gen_step(w, rng, cfg, tree, tier):
             c += ["dumps", "dumps", "deepcopy"]
         if texts:
             c += ["loads", "loads"]
+        lib_docs = [d for d in docs if d.made_by_lib and not d.tainted and d.meta.get("w", 0) <= 3000 and '{"string"' in json.dumps(d.value)] if docs and rng.chance(0.5) else []
+        if lib_docs:
+            # a foreign spelling of the same document is loaded, then an EARLIER to_json_data call is re-issued
+            w._pending_ops = [{"op": "from_json_data", "in": ["last"]}, {"op": "repeat_to_json_data"}]
+            return {"op": "respell", "in": [rng.choice(lib_docs).id], "style": rng.choice(["escape", "repr", "double"])}
         if c:
             a = rng.choice(c)
             if a == "dumps":
